@@ -156,6 +156,7 @@ ListFileLaw == ph = "list" =>
 
 Names == { <<"a","l","p","h","a">>, <<"b","e","t","a">>, <<"a","l","p","h","a"," ","b","e","t","a">>,
            <<"b","e","t","a"," ","a","l","p","h","a">>, <<"g","a","m","m","a">>,
+           <<"a","l","p","h","a","b","e","t","a">>, <<"g","a","m","m","a"," "," ","b","e","t","a">>,
            RowName(<<"a","l","p","h","a">>, 1, 2, <<"t","a","b">>), RowName(<<"b","e","t","a">>, 2, 1, <<"t","o","b">>) }
 NameLaw == ph = "name" =>
    \A s \in Names :
@@ -190,6 +191,8 @@ PoolQuick == { LComment, LBlank,
                LEntry(2, TRUE, 4, 0, FALSE, 0), LEntry(2, FALSE, 0, 0, TRUE, 0), LEntry(2, TRUE, 7, 1, TRUE, 1),
                LEntry(1, TRUE, 4, 1, FALSE, 0), LEntry(2, FALSE, 0, 1, FALSE, 0) }
 PoolThorough == PoolQuick \cup { LEntry(1, TRUE, 0, 0, FALSE, 0), LEntry(2, TRUE, 11, 0, FALSE, 1) }
-TextsQuick == { <<"a","l","p","h","a">>, <<"b","e","t","a">>, <<"a"," ","b">>, <<"@","1",".","2">> }
-TextsThorough == TextsQuick \cup { <<"p","h">>, <<"t","a","b">> }
+\* a pattern is the exact text given (re.search semantics): leading / trailing / inner blanks are significant
+TextsQuick == { <<"a","l","p","h","a">>, <<"b","e","t","a">>, <<"a"," ","b">>, <<"@","1",".","2">>,
+                <<"a","l","p","h","a"," ">>, <<" ","b","e","t","a">> }
+TextsThorough == TextsQuick \cup { <<"p","h">>, <<"t","a","b">>, <<"a"," "," ","b">> }
 =============================================================================
